@@ -206,7 +206,7 @@ def run(ctx):
             if not res.ok:
                 raise MachineryError('Outputs_MC violated:\n' + res.error_trace)
     if ctx.only in (None, 'c2s'):
-        n = 80 if quick else 800
+        n = 80 if quick else 2400
         recs, owners = [], []
         for named in (False, True):
             scns = []
